@@ -9,8 +9,39 @@ Require Import Kinds PyStr Line Matcher Ast Builder BuilderSafe AstIds Automaton
 Notation rP := (pipeline_params Table.table).
 
 Definition any_ms (m : mstate) : Prop := True.
-Lemma any_ms_kept k m t : any_ms m -> match matchf rP k m t with MR _ _ m' | MRaise _ _ m' => any_ms m' end.
-Proof. intros _. destruct (matchf rP k m t); exact I. Qed.
+Lemma any_ms_kept k m t t' m' : any_ms m -> matchf rP k m t = MR true t' m' -> any_ms m'.
+Proof. intros _ _. exact I. Qed.
+
+(* the kinds whose successful match leaves the matcher's state alone: all but #Language and #DocStringSeparator *)
+Definition quiet_p (k : kind) : bool := negb (kind_beq k KLanguage) && negb (kind_beq k KDocStringSeparator).
+Lemma p_fail k m t t' m' : matchf rP k m t = MR false t' m' -> m' = m.
+Proof.
+  cbn [matchf pipeline_params]. unfold p_matchf. destruct (matcher dialects k m t); intros H; inversion H; reflexivity.
+Qed.
+Lemma p_raise k m t e t' m' : matchf rP k m t = MRaise e t' m' -> m' = m.
+Proof.
+  cbn [matchf pipeline_params]. unfold p_matchf. destruct (matcher dialects k m t) as [|t1 m1|e1 t1 m1] eqn:M; intros H; inversion H; subst.
+  eapply matcher_err_sep; eauto.
+Qed.
+Lemma p_quiet k m t t' m' : quiet_p k = true -> matchf rP k m t = MR true t' m' -> m' = m.
+Proof.
+  intros Q. cbn [matchf pipeline_params]. unfold p_matchf. destruct (matcher dialects k m t) as [|t1 m1|e1 t1 m1] eqn:M; intros H; inversion H; subst.
+  unfold quiet_p in Q. apply andb_prop in Q as [Q1 Q2].
+  eapply matcher_keeps_state; [| |exact M]; intros ->; discriminate.
+Qed.
+Lemma p_la_ok : forallb (fun h => forallb quiet_p (la_expected h ++ la_skip h)) Table.lookaheads = true.
+Proof. vm_compute. reflexivity. Qed.
+Lemma p_la h k : In h (Automaton.lookaheads rP) -> In k (la_expected h ++ la_skip h) -> quiet_p k = true.
+Proof.
+  intros Hh Hk. pose proof p_la_ok as A. rewrite forallb_forall in A. specialize (A h Hh). rewrite forallb_forall in A. apply A, Hk.
+Qed.
+Lemma p_guard x y : In x (Automaton.table rP) -> In y (s_tests x) -> t_guard y <> None -> quiet_p (t_kind y) = true.
+Proof.
+  intros Hx Hy G. pose proof guards_shape_ok as A. unfold guards_shape in A. rewrite forallb_forall in A.
+  specialize (A x Hx). apply andb_prop in A as [A _]. rewrite forallb_forall in A. specialize (A y Hy).
+  destruct (t_guard y); [|congruence]. apply andb_prop in A as [A _]. apply kind_beq_eq in A. rewrite A. reflexivity.
+Qed.
+
 Lemma pipe_match k m t t' m' : any_ms m -> matchf rP k m t = MR true t' m' -> tok_ok k t'.
 Proof.
   intros _. cbn [matchf pipeline_params]. unfold p_matchf. destruct (matcher dialects k m t) as [|t1 m1|e t1 m1] eqn:M; intros H; inversion H; subst.
@@ -21,15 +52,20 @@ Qed.
    the token's own physical line (`canon`: that line and its number, nothing else) *)
 Definition tok_made (k : kind) (t : token) : Prop :=
   tok_ok k t /\ exists m0 m', PipelineFacts.wf_ms m0 /\ matcher dialects k m0 (canon t) = MYes t m'.
-Lemma wf_ms_kept k m t : PipelineFacts.wf_ms m -> match matchf rP k m t with MR _ _ m' | MRaise _ _ m' => PipelineFacts.wf_ms m' end.
+(* ... with the states named: the thread of matcher states along a path *)
+Definition tok_step (k : kind) (m : mstate) (t : token) (m' : mstate) : Prop :=
+  tok_ok k t /\ PipelineFacts.wf_ms m /\ matcher dialects k m (canon t) = MYes t m'.
+Lemma tok_step_made k m t m' : tok_step k m t m' -> tok_made k t.
+Proof. intros (A & B & C). split; [exact A | eauto]. Qed.
+Lemma wf_ms_kept k m t t' m' : PipelineFacts.wf_ms m -> matchf rP k m t = MR true t' m' -> PipelineFacts.wf_ms m'.
 Proof.
   intros W. cbn [matchf pipeline_params]. unfold p_matchf. pose proof (PipelineFacts.matcher_wf k m t W) as H.
-  destruct (matcher dialects k m t); [exact W | apply H | apply H].
+  destruct (matcher dialects k m t); intros E; inversion E; subst. apply H.
 Qed.
-Lemma pipe_made k m t t' m' : PipelineFacts.wf_ms m -> matchf rP k m t = MR true t' m' -> tok_made k t'.
+Lemma pipe_step k m t t' m' : PipelineFacts.wf_ms m -> matchf rP k m t = MR true t' m' -> tok_step k m t' m'.
 Proof.
   intros W. cbn [matchf pipeline_params]. unfold p_matchf. destruct (matcher dialects k m t) as [|t1 m1|e t1 m1] eqn:M; intros H; inversion H; subst.
-  split; [eapply matcher_tok_ok; eauto | exists m, m'; split; [exact W | eapply matcher_canon; eauto]].
+  split; [eapply matcher_tok_ok; eauto | split; [exact W | eapply matcher_canon; eauto]].
 Qed.
 Lemma pipe_eof' k m t : is_eof rP (mtok' (matchf rP k m t)) = is_eof rP t.
 Proof. exact (pipe_eof k m t). Qed.
@@ -66,9 +102,9 @@ Qed.
 Definition dinv (lo : nat) (s : nat) (b : bstate) : Prop :=
   exists rec, dlookup s gamma = Some rec /\ srel rec (b_stack b) /\ dense lo b.
 
-Lemma reach_dinv lo b1 : dinv lo Table.start_state b1 -> forall s b l, reach rP tok_ok b1 s b l -> dinv lo s b.
+Lemma reach_dinv lo b1 m1 : dinv lo Table.start_state b1 -> forall s b l m, reach rP (fun k _ t _ => tok_ok k t) b1 m1 s b l m -> dinv lo s b.
 Proof.
-  intros H0 s b l R. induction R as [|s b l x y t b' R IH Hx Hid Hy Ht Hb]; [exact H0|].
+  intros H0 s b l m R. induction R as [|s b l m x y t b' m' R IH Hx Hid Hy Ht Hb]; [exact H0|].
   destruct IH as (rec & Hl & S & Dn).
   pose proof gamma_ok as G. unfold dense_ok in G. apply andb_prop in G as [_ G]. rewrite forallb_forall in G.
   specialize (G x Hx). rewrite Hid, Hl in G. rewrite forallb_forall in G. specialize (G y Hy).
@@ -126,8 +162,8 @@ Proof.
   unfold parse_source, parse_tokens, parse_tokens_with.
   destruct (parse rP stop (scan src) (reset_matcher dialects m) (reset_builder b)) as [[] c|e c|es c|c|] eqn:P; try discriminate.
   destruct (builder_result (bs c)) as [d0|] eqn:Br; [|discriminate]. intros H. inversion H; subst. clear H.
-  destruct (path_replay rP any_ms any_ms_kept tok_ok pipe_match pipe_eof' _ _ _ _ _ I P) as (b2 & s & b3 & l & Hs & R & He & Hend & _).
-  pose proof (reach_dinv (b_idc b) b2 (start_dinv _ _ Hs) s b3 l R) as (rec & Hl & S & Dn).
+  destruct (path_replay rP any_ms any_ms_kept quiet_p p_fail p_raise p_quiet p_la p_guard (fun k _ t _ => tok_ok k t) pipe_match pipe_eof' _ _ _ _ _ I P) as (b2 & s & b3 & l & m2 & Hs & R & He & Hend & _).
+  pose proof (reach_dinv (b_idc b) b2 _ (start_dinv _ _ Hs) s b3 l m2 R) as (rec & Hl & S & Dn).
   destruct (ends_doc s He) as (f & Hf & Hr). rewrite Hf in Hl. inversion Hl; subst rec.
   exact (final_dense _ _ _ _ _ S Hr Dn Hend Br).
 Qed.
